@@ -52,6 +52,10 @@ def run_extract():
     with Lock(".lean.lock"):
         rc, out = sh([sys.executable, os.path.join(HERE, "extract.py")])
         rc2, out2 = sh([sys.executable, os.path.join(HERE, "bodyx.py")])
+        rc3, out3 = sh([sys.executable, os.path.join(HERE, "seqbody.py")])
+    if rc3 != 0:
+        raise RuntimeError("sequence body translator crashed:\n" + out3)
+    out2 += out3
     if rc != 0:
         raise RuntimeError("translator crashed:\n" + out)
     if rc2 != 0:
@@ -61,6 +65,11 @@ def run_extract():
     try:
         for k, v in json.load(open(os.path.join(BUILD, "body_status.json"))).items():
             status["Body." + k] = {"status": "ok" if v["status"] == "ok" else "unlowered(%s)" % v.get("why", "")[:80]}
+    except OSError:
+        pass
+    try:
+        for k, v in json.load(open(os.path.join(BUILD, "seqbody_status.json"))).items():
+            status["SeqBody." + k] = {"status": "ok" if v["status"] == "ok" else "unlowered(%s)" % v.get("reason", "")[:80]}
     except OSError:
         pass
     return status, out + out2
